@@ -32,7 +32,7 @@ def build(wt):
 
 def main():
     prop = sys.argv[1]
-    for d in sorted(glob.glob(os.path.join(HERE, "seeded", prop + "-m*"))):
+    for d in sorted(glob.glob(os.path.join(HERE, "seeded", prop + "-" + os.environ.get("SEED_TAG", "m") + "*"))):
         demo = os.path.join(d, "demo.sh")
         meta_p = os.path.join(d, "meta.json")
         meta = json.load(open(meta_p))
@@ -43,7 +43,7 @@ def main():
             if wt and wt.startswith("${"):
                 m = re.search(r":-([^}]+)\}", wt)
                 wt = m.group(1) if m else None
-            if wt and not wt.startswith("/tmp/seed_"):
+            if wt and not wt.startswith("/tmp/seed"):
                 wt = None
         if wt is None:
             wt = "/tmp/seed_%s" % prop
